@@ -10,6 +10,7 @@ import (
 	"github.com/crate-crypto/go-ipa/bandersnatch/fr"
 	"github.com/crate-crypto/go-ipa/banderwagon"
 	"github.com/crate-crypto/go-ipa/common"
+	"github.com/crate-crypto/go-ipa/ipa"
 
 	"verif/mon"
 	"verif/ref"
@@ -390,7 +391,16 @@ func (g *engine) step() {
 		}
 		cfg := banderwagon.MultiExpConfig{NbTasks: []int{0, 1, 2, 16, 64}[rng.Intn(5)], ScalarsMont: mont}
 		g.log(fmt.Sprintf("e%d.MultiExp(slots %v, mont=%v, tasks=%d)", d, idx, mont, cfg.NbTasks))
-		ret, err := g.e[d].MultiExp(pts, scs, cfg)
+		var ret *banderwagon.Element
+		var err error
+		if mont && rng.Intn(3) == 0 {
+			// the wrapper the prover and verifier use
+			var r banderwagon.Element
+			r, err = ipa.MultiScalar(pts, scs)
+			g.e[d], ret = r, &g.e[d]
+		} else {
+			ret, err = g.e[d].MultiExp(pts, scs, cfg)
+		}
 		if err != nil {
 			g.c.Fail("error/MultiExp", "MultiExp with equal lengths returned "+err.Error(), nil)
 		} else {
